@@ -1,6 +1,7 @@
 (** * Vld/ValidatorProofs.v — proofs about the validator model (C04). *)
 From Coq Require Import List NArith ZArith Bool Lia Permutation.
-From ApiFu Require Import Base.Sexp Vld.Ast Vld.Inspect Vld.Literals Vld.TypeInfoModel Vld.ValidatorModel Vld.ValidSpec.
+From ApiFu Require Import Base.Sexp Vld.Ast Vld.Inspect Vld.Literals Vld.TypeInfoModel Vld.TypeInfoPure Vld.ValidatorModel Vld.ValidSpec
+     Vld.ProofsCommon Vld.ProofsOrder.
 Import ListNotations.
 
 (** ** the primary / secondary filter (validator.go:82-91) *)
@@ -30,4 +31,54 @@ Proof.
     rewrite E in Hin. destruct Hin.
   - intros H Hs. rewrite <- E in H. apply filter_In in H. destruct H as [_ H].
     rewrite Hs in H. discriminate.
+Qed.
+
+(** ** the pipeline accepts iff every rule group is silent *)
+Lemma seq_outcome_nil a b : seq_outcome a b = Done [] <-> a = Done [] /\ b = Done [].
+Proof.
+  destruct a as [e1 | s1 |]; destruct b as [e2 | s2 |]; simpl;
+    try (split; [discriminate | intros [H1 H2]; discriminate]).
+  split.
+  - intros H. inversion H as [H']. apply app_eq_nil in H' as [-> ->]. auto.
+  - intros [H1 H2]. inversion H1; inversion H2; subst. reflexivity.
+Qed.
+
+Lemma all_rules_nil q pi S F A :
+  all_rules q pi S F A = Done [] <->
+  rule_operations q A = Done [] /\ rule_fields q pi S F A = Done [] /\ rule_arguments q pi S A = Done [] /\
+  (rule_fragment_declarations pi S F A = [] /\ rule_fragment_spreads q pi S F A = Done []) /\
+  rule_values q pi S A = Done [] /\ rule_directives q S A = Done [] /\ rule_variables pi S A = Done [].
+Proof.
+  unfold all_rules, rule_document, rule_fragments. cbn [fold_left]. rewrite !seq_outcome_nil, !Done_nil_iff. intuition.
+Qed.
+
+Lemma validate_model_nil q pi S F D :
+  validate_model q pi S F D = Done [] <-> all_rules q pi S F (pti_doc (q_unwrap_obj q) S F D) = Done [].
+Proof.
+  unfold validate_model. rewrite type_info_pure.
+  destruct (all_rules q pi S F (pti_doc (q_unwrap_obj q) S F D)) as [errs | s |].
+  - rewrite !Done_nil_iff. apply filter_primary_nil.
+  - tauto.
+  - tauto.
+Qed.
+
+(** ** acceptance does not depend on the order in which Go ranges over its maps *)
+Theorem validate_accept_order pi1 pi2 S F D :
+  order_ok pi1 -> order_ok pi2 ->
+  (validate_model repaired pi1 S F D = Done [] <-> validate_model repaired pi2 S F D = Done []).
+Proof.
+  intros H1 H2. rewrite !validate_model_nil, !all_rules_nil.
+  set (A := pti_doc (q_unwrap_obj repaired) S F D).
+  rewrite (rule_fields_order pi1 pi2 H1 H2 repaired S F A).
+  rewrite (rule_arguments_order pi1 pi2 H1 H2 S A).
+  rewrite (rule_fragment_declarations_order pi1 pi2 H1 H2 S F A).
+  rewrite (rule_values_order pi1 pi2 H1 H2 S A).
+  rewrite (rule_variables_order S A pi1 pi2 H1 H2).
+  assert (rule_fragment_spreads repaired pi1 S F A = Done [] <-> rule_fragment_spreads repaired pi2 S F A = Done []) as Hs.
+  { split; apply rule_fragment_spreads_half; try assumption.
+    - apply (cycle_ok_order pi1 pi2 H1 H2).
+    - apply (spreads_enter_order pi1 pi2 H1 H2).
+    - intros n. symmetry. apply (cycle_ok_order pi1 pi2 H1 H2).
+    - intros st n. symmetry. apply (spreads_enter_order pi1 pi2 H1 H2). }
+  rewrite Hs. tauto.
 Qed.
